@@ -1,3 +1,378 @@
-/- Property theorems for C15 (stub: not built yet). -/
+/-
+C15  Panel data container conversions are lossless and mutually consistent.
+Property theorems about SkVerif/Model/Panel.lean (the executable model of
+sktime/utils/data_processing.py and check_X).  Only theorems + non-vacuity examples here;
+specifications are in Spec/Panel.lean, lemmas in Lemmas/Panel*.lean.
+
+All theorems are polymorphic in the value type `α` (conversions never look at values) and in the
+type `ν` of column names; shapes `n × c × t` are arbitrary with `n, c ≥ 1` (and `t ≥ 1` where a
+multi-index frame is involved), names are arbitrary pairwise distinct labels.
+-/
+import SkVerif.Lemmas.PanelPath
+import SkVerif.Lemmas.PanelNames
+import SkVerif.Lemmas.Panel2d
 namespace SkVerif.C15
+open SkVerif SkVerif.Panel SkVerif.Panel.Spec SkVerif.Panel.Lem
+
+variable {ν α : Type}
+
+/-! ### the canonical containers determine the panel (so "the same result" is meaningful) -/
+
+/-- two nested frames of the same names / cell kind hold the same panel only if they are equal, and
+conversely: the frame determines the panel -/
+theorem nestedOf_injective {n c t : Nat} {X Y : Arr3 α} (hX : Rect3 n c t X) (hY : Rect3 n c t Y)
+    (hn : 0 < n) (hc : 0 < c) (names : List ν) (hl : names.length = c) (k : Bool)
+    (h : nestedOf names k X = nestedOf names k Y) : X = Y := by
+  have h1 := fromNestedTo3d_ok hX hn hc names hl k
+  have h2 := fromNestedTo3d_ok hY hn hc names hl k
+  rw [h] at h1
+  exact Except.ok.inj (h1.symm.trans h2)
+
+theorem miOf_injective {n c t : Nat} {X Y : Arr3 α} (hX : Rect3 n c t X) (hY : Rect3 n c t Y)
+    (hn : 0 < n) (hc : 0 < c) (ht : 0 < t) (names : List ν) (hl : names.length = c)
+    (h : miOf "i" "t" names X = miOf "i" "t" names Y) : X = Y := by
+  have h1 := fromMITo3d_ok hX hn hc ht "i" "t" (by decide) names hl
+  have h2 := fromMITo3d_ok hY hn hc ht "i" "t" (by decide) names hl
+  rw [h] at h1
+  exact Except.ok.inj (h1.symm.trans h2)
+
+/-! ### round trips (values, shape, instance order, time order, variable order, names) -/
+
+/-- 3-D array → nested (any distinct names, Series or array cells) → 3-D array is the identity -/
+theorem arr3_nested_arr3 [DecidableEq ν] (ops : NameOps ν) {n c t : Nat} {X : Arr3 α}
+    (hX : Rect3 n c t X) (hn : 0 < n) (hc : 0 < c) (names : List ν) (hl : names.length = c)
+    (hnd : names.Nodup) (k : Bool) :
+    (from3dToNested ops X (some names) k).bind fromNestedTo3d = .ok X := by
+  rw [from3dToNested_ok ops hX hn names hl hnd k]
+  exact fromNestedTo3d_ok hX hn hc names hl k
+
+/-- … also with the default names `var_0 … var_{c-1}` -/
+theorem arr3_nested_arr3_default [DecidableEq ν] (ops : NameOps ν) {n c t : Nat} {X : Arr3 α}
+    (hX : Rect3 n c t X) (hn : 0 < n) (hc : 0 < c) (hd : (defaultNames ops c).Nodup) (k : Bool) :
+    (from3dToNested ops X none k).bind fromNestedTo3d = .ok X := by
+  rw [from3dToNested_default_ok ops hX hn hd k]
+  exact fromNestedTo3d_ok hX hn hc _ (by simp [defaultNames]) k
+
+/-- nested → 3-D array → nested (given the frame's own names and cell kind) is the identity,
+for every well-formed nested frame: values, shape, row order, column order and column names -/
+theorem nested_arr3_nested [DecidableEq ν] (ops : NameOps ν) {n c t : Nat} {k : Bool}
+    {N : Nested ν α} (hN : WFNested n c t k N) (hn : 0 < n) (hc : 0 < c) :
+    (fromNestedTo3d N).bind (fun X => from3dToNested ops X (some N.names) k) = .ok N := by
+  obtain ⟨hrect, heq⟩ := wfNested_eq_nestedOf hN hn hc
+  have hl : N.names.length = c := by simp [Nested.names, hN.2.1]
+  conv => lhs; rw [heq]
+  rw [fromNestedTo3d_ok hrect hn hc N.names hl k]
+  simp only [Except.bind]
+  rw [nestedOf_names hrect hn N.names hl k, from3dToNested_ok ops hrect hn N.names hl hN.1 k, ← heq]
+
+/-- the 3-D array obtained from a well-formed nested frame is the panel it holds -/
+theorem nested_to_arr3_eq_panel {n c t : Nat} {k : Bool} {N : Nested ν α}
+    (hN : WFNested n c t k N) (hn : 0 < n) (hc : 0 < c) :
+    fromNestedTo3d N = .ok (panelOfNested N) ∧ Rect3 n c t (panelOfNested N) := by
+  obtain ⟨hrect, heq⟩ := wfNested_eq_nestedOf hN hn hc
+  have hl : N.names.length = c := by simp [Nested.names, hN.2.1]
+  refine ⟨?_, hrect⟩
+  conv => lhs; rw [heq]
+  exact fromNestedTo3d_ok hrect hn hc N.names hl k
+
+/-- 3-D array → multi-index → 3-D array is the identity (any level names, any column names) -/
+theorem arr3_mi_arr3 (ops : NameOps ν) {n c t : Nat} {X : Arr3 α} (hX : Rect3 n c t X)
+    (hn : 0 < n) (hc : 0 < c) (ht : 0 < t) (i tm : String) (hne : i ≠ tm) (names : List ν)
+    (hl : names.length = c) :
+    (from3dToMI ops X (some i) (some tm) (some names)).bind
+      (fun M => fromMITo3d M (some i) (some tm)) = .ok X := by
+  rw [from3dToMI_ok ops hX hn hc (some i) (some tm) names hl]
+  exact fromMITo3d_ok hX hn hc ht i tm hne names hl
+
+/-- multi-index → 3-D array → multi-index (same level names, the frame's names) is the identity -/
+theorem mi_arr3_mi (ops : NameOps ν) {n c t : Nat} {X : Arr3 α} (hX : Rect3 n c t X)
+    (hn : 0 < n) (hc : 0 < c) (ht : 0 < t) (i tm : String) (hne : i ≠ tm) (names : List ν)
+    (hl : names.length = c) :
+    (fromMITo3d (miOf i tm names X) (some i) (some tm)).bind
+      (fun Y => from3dToMI ops Y (some i) (some tm) (some names)) = .ok (miOf i tm names X) := by
+  rw [fromMITo3d_ok hX hn hc ht i tm hne names hl]
+  exact from3dToMI_ok ops hX hn hc (some i) (some tm) names hl
+
+/-- nested → multi-index → nested is the identity: values, orders, names and cell kind -/
+theorem nested_mi_nested [DecidableEq ν] {n c t : Nat} {k : Bool} {N : Nested ν α}
+    (hN : WFNested n c t k N) (hn : 0 < n) (hc : 0 < c) (ht : 0 < t) (i tm : String)
+    (hne : i ≠ tm) :
+    (fromNestedToMI N (some i) (some tm)).bind (fun M => fromMIToNested M (some i) k) = .ok N := by
+  obtain ⟨hrect, heq⟩ := wfNested_eq_nestedOf hN hn hc
+  have hl : N.names.length = c := by simp [Nested.names, hN.2.1]
+  conv => lhs; rw [heq]
+  rw [fromNestedToMI_ok hrect hn hc N.names hl k (some i) (some tm)]
+  simp only [Except.bind, Option.getD]
+  rw [fromMIToNested_ok hrect hn hc ht i tm hne N.names hl hN.1 k, ← heq]
+
+/-- multi-index → nested → multi-index is the identity -/
+theorem mi_nested_mi [DecidableEq ν] {n c t : Nat} {X : Arr3 α} (hX : Rect3 n c t X)
+    (hn : 0 < n) (hc : 0 < c) (ht : 0 < t) (i tm : String) (hne : i ≠ tm) (names : List ν)
+    (hl : names.length = c) (hnd : names.Nodup) (k : Bool) :
+    (fromMIToNested (miOf i tm names X) (some i) k).bind
+      (fun N => fromNestedToMI N (some i) (some tm)) = .ok (miOf i tm names X) := by
+  rw [fromMIToNested_ok hX hn hc ht i tm hne names hl hnd k]
+  exact fromNestedToMI_ok hX hn hc names hl k (some i) (some tm)
+
+/-! ### every path between two of {nested, 3-D array, multi-index} -/
+
+/-- A conversion path of ANY length whose bookkeeping (`pathShape`: names kept while every
+container on the way carries names, defaults / explicit names after a 3-D array, options of each
+converter) is defined returns the canonical container of the resulting shape holding the SAME
+panel: values, shape, instance order, time order, variable order are those of the input. -/
+theorem path_preserves_panel [DecidableEq ν] (ops : NameOps ν) (reserved : ν → Bool)
+    {n c t : Nat} {X : Arr3 α} (hX : Rect3 n c t X) (hn : 0 < n) (hc : 0 < c) (ht : 0 < t)
+    (hd : (defaultNames ops c).Nodup) (hs : List (Hop ν)) (s s' : Shape ν) (hok : s.ok c)
+    (hp : pathShape ops c hs s = some s') :
+    applyPath ops reserved hs (holds s X) = .ok (holds s' X) :=
+  applyPath_holds ops reserved hX hn hc ht hd hs s s' hok hp
+
+/-- path independence: two paths (of any lengths) from the same container whose bookkeeping ends
+in the same shape return the same result; in particular a path equals the direct conversion. -/
+theorem path_independence [DecidableEq ν] (ops : NameOps ν) (reserved : ν → Bool)
+    {n c t : Nat} {X : Arr3 α} (hX : Rect3 n c t X) (hn : 0 < n) (hc : 0 < c) (ht : 0 < t)
+    (hd : (defaultNames ops c).Nodup) (p q : List (Hop ν)) (s s' : Shape ν) (hok : s.ok c)
+    (hp : pathShape ops c p s = some s') (hq : pathShape ops c q s = some s') :
+    applyPath ops reserved p (holds s X) = applyPath ops reserved q (holds s X) := by
+  rw [applyPath_holds ops reserved hX hn hc ht hd p s s' hok hp,
+    applyPath_holds ops reserved hX hn hc ht hd q s s' hok hq]
+
+/-- nested → multi-index → 3-D array equals the direct nested → 3-D array -/
+theorem nested_mi_arr3_eq_direct {n c t : Nat} {k : Bool} {N : Nested ν α}
+    (hN : WFNested n c t k N) (hn : 0 < n) (hc : 0 < c) (ht : 0 < t) :
+    (fromNestedToMI N none none).bind (fun M => fromMITo3d M (some "instance") (some "timepoints"))
+      = fromNestedTo3d N := by
+  obtain ⟨hrect, heq⟩ := wfNested_eq_nestedOf hN hn hc
+  have hl : N.names.length = c := by simp [Nested.names, hN.2.1]
+  conv => lhs; rw [heq]
+  conv => rhs; rw [heq]
+  rw [fromNestedToMI_ok hrect hn hc N.names hl k none none, fromNestedTo3d_ok hrect hn hc N.names hl k]
+  exact fromMITo3d_ok hrect hn hc ht "instance" "timepoints" (by decide) N.names hl
+
+/-- 3-D array → nested → multi-index equals the direct 3-D array → multi-index up to the default
+level name (`instance` vs `instances`), with the same explicit level names literally -/
+theorem arr3_nested_mi_eq_direct [DecidableEq ν] (ops : NameOps ν) {n c t : Nat} {X : Arr3 α}
+    (hX : Rect3 n c t X) (hn : 0 < n) (hc : 0 < c) (names : List ν) (hl : names.length = c)
+    (hnd : names.Nodup) (k : Bool) (i tm : String) :
+    (from3dToNested ops X (some names) k).bind (fun N => fromNestedToMI N (some i) (some tm))
+      = from3dToMI ops X (some i) (some tm) (some names) := by
+  rw [from3dToNested_ok ops hX hn names hl hnd k, from3dToMI_ok ops hX hn hc (some i) (some tm) names hl]
+  exact fromNestedToMI_ok hX hn hc names hl k (some i) (some tm)
+
+/-- nested → 3-D array → multi-index: values as the direct nested → multi-index, names replaced
+by the defaults (a 3-D array carries no names) -/
+theorem nested_arr3_mi_defaults_names [DecidableEq ν] (ops : NameOps ν) {n c t : Nat} {k : Bool}
+    {N : Nested ν α} (hN : WFNested n c t k N) (hn : 0 < n) (hc : 0 < c) (i tm : String) :
+    (fromNestedTo3d N).bind (fun X => from3dToMI ops X (some i) (some tm) none)
+      = .ok (miOf i tm (defaultNames ops c) (panelOfNested N)) ∧
+    fromNestedToMI N (some i) (some tm) = .ok (miOf i tm N.names (panelOfNested N)) := by
+  obtain ⟨hrect, heq⟩ := wfNested_eq_nestedOf hN hn hc
+  have hl : N.names.length = c := by simp [Nested.names, hN.2.1]
+  constructor
+  · conv => lhs; rw [heq]
+    rw [fromNestedTo3d_ok hrect hn hc N.names hl k]
+    exact from3dToMI_default_ok ops hrect hn hc (some i) (some tm)
+  · conv => lhs; rw [heq]
+    exact fromNestedToMI_ok hrect hn hc N.names hl k (some i) (some tm)
+
+/-! ### nestedness predicates -/
+
+
+/-- `is_nested_dataframe` is True exactly for frames that contain a series-valued cell -/
+theorem nested_predicates_iff (N : Nested ν α) :
+    isNestedDataframe N = true ↔ ∃ p ∈ N.cols, ∃ cell ∈ p.2, cell.isNested = true := by
+  simp [isNestedDataframe, areColumnsNested, List.any_eq_true]
+
+/-- `are_columns_nested` reports, column by column, whether the column contains a series-valued cell -/
+theorem are_columns_nested_iff (N : Nested ν α) (j : Nat) (hj : j < N.cols.length) :
+    (areColumnsNested N)[j]'(by simpa [areColumnsNested] using hj) = true ↔
+      ∃ cell ∈ (N.cols[j]).2, cell.isNested = true := by
+  simp [areColumnsNested, List.any_eq_true]
+
+theorem are_columns_nested_length (N : Nested ν α) : (areColumnsNested N).length = N.cols.length := by
+  simp [areColumnsNested]
+
+/-- a cell is series-valued iff it is a Series or an array (not a primitive) -/
+theorem cell_isNested_iff (cell : Cell α) :
+    cell.isNested = true ↔ (∃ vs, cell = .ser vs) ∨ (∃ vs, cell = .arr vs) := by
+  cases cell <;> simp [Cell.isNested]
+
+/-! ### container coercion at estimator boundaries (check_X) -/
+
+
+theorem wf_nRows {n c t : Nat} {k : Bool} {N : Nested ν α} (h : WFNested n c t k N) (hc : 0 < c) :
+    N.nRows = n := by
+  obtain ⟨_, hlen, hcols⟩ := h
+  unfold Nested.nRows
+  cases hC : N.cols with
+  | nil => rw [hC] at hlen; simp at hlen; omega
+  | cons p rest => exact (hcols p (by rw [hC]; simp)).1
+
+/-- `check_X(X, coerce_to_numpy=True)` on a well-formed nested frame that passes the size checks
+returns the 3-D array holding the same panel -/
+theorem checkX_coerce_numpy [DecidableEq ν] (ops : NameOps ν) {n c t : Nat} {k : Bool}
+    {N : Nested ν α} (hN : WFNested n c t k N) (hn : 0 < n) (hc : 0 < c) (uni : Bool)
+    (minInst minCols : Nat) (h1 : minCols ≤ c) (h2 : uni = true → c = 1) (h3 : minInst ≤ n) :
+    checkX ops (.frame N) uni minInst minCols true false = .ok (.arr3 (panelOfNested N)) := by
+  obtain ⟨hrect, heq⟩ := wfNested_eq_nestedOf hN hn hc
+  have hl : N.names.length = c := by simp [Nested.names, hN.2.1]
+  have hisn : isNestedDataframe N = true := by rw [heq]; exact isNested_nestedOf hrect hn hc N.names hl k
+  have h3d := (nested_to_arr3_eq_panel hN hn hc).1
+  have hu : ¬ (uni = true ∧ c > 1) := by intro ⟨a, b⟩; have := h2 a; omega
+  have hi : ¬ (minInst > 0 ∧ n < minInst) := by omega
+  simp [checkX, hN.2.1, wf_nRows hN hc, Nat.not_lt.mpr h1, hu, hi, hisn, h3d, bind, Except.bind,
+    pure, Except.pure]
+
+/-- `check_X(X, coerce_to_pandas=True)` on a 3-D array returns the nested frame (Series cells,
+default names) holding the same panel -/
+theorem checkX_coerce_pandas [DecidableEq ν] (ops : NameOps ν) {n c t : Nat} {X : Arr3 α}
+    (hX : Rect3 n c t X) (hn : 0 < n) (hc : 0 < c) (hd : (defaultNames ops c).Nodup) (uni : Bool)
+    (minInst minCols : Nat) (h1 : minCols ≤ c) (h2 : uni = true → c = 1) (h3 : minInst ≤ n) :
+    checkX ops (.arr3 X) uni minInst minCols false true =
+      .ok (.frame (nestedOf (defaultNames ops c) false X)) := by
+  have hl : (defaultNames ops c).length = c := by simp [defaultNames]
+  have hisn := isNested_nestedOf hX hn hc (defaultNames ops c) hl false
+  have hu : ¬ (uni = true ∧ c > 1) := by intro ⟨a, b⟩; have := h2 a; omega
+  have hi : ¬ (minInst > 0 ∧ n < minInst) := by omega
+  have hcl : (nestedOf (defaultNames ops c) false X).cols.length = c := by
+    have := congrArg List.length (nestedOf_names hX hn (defaultNames ops c) hl false)
+    simpa [Nested.names, hl] using this
+  simp [checkX, from3dToNested_default_ok ops hX hn hd false, hcl,
+    nRows_nestedOf hX hn hc (defaultNames ops c) hl false, Nat.not_lt.mpr h1, hu, hi, hisn, bind,
+    Except.bind, pure, Except.pure]
+
+/-- without coercion `check_X` returns its argument unchanged -/
+theorem checkX_identity_arr3 [DecidableEq ν] (ops : NameOps ν) {n c t : Nat} {X : Arr3 α}
+    (hX : Rect3 n c t X) (hn : 0 < n) (uni : Bool)
+    (minInst minCols : Nat) (h1 : minCols ≤ c) (h2 : uni = true → c = 1) (h3 : minInst ≤ n) :
+    checkX (α := α) ops (.arr3 X) uni minInst minCols false false = .ok (.arr3 X) := by
+  have hu : ¬ (uni = true ∧ c > 1) := by intro ⟨a, b⟩; have := h2 a; omega
+  have hi : ¬ (minInst > 0 ∧ n < minInst) := by omega
+  simp [checkX, rect_nCols hX hn, nInst, hX.1, Nat.not_lt.mpr h1, hu, hi, bind, Except.bind, pure,
+    Except.pure]
+
+/-- asking for both coercions is rejected; so is anything that is not a DataFrame or a 3-D array -/
+theorem checkX_rejects [DecidableEq ν] (ops : NameOps ν) (X : XIn ν α) (uni : Bool) (a b : Nat) :
+    checkX ops X uni a b true true = .error .value ∧
+    (∀ tn tp, checkX (α := α) ops .other uni a b tn tp = .error .value) ∧
+    (∀ tn tp, checkX (α := α) ops .arrOther uni a b tn tp = .error .value) := by
+  refine ⟨by simp [checkX, bind, Except.bind, throw, throwThe, MonadExceptOf.throw], ?_, ?_⟩ <;>
+  · intro tn tp
+    cases tn <;> cases tp <;> simp [checkX, bind, Except.bind, throw, throwThe, MonadExceptOf.throw]
+
+/-- coercing a 3-D array to pandas and back to numpy at two estimator boundaries is the identity -/
+theorem checkX_pandas_numpy_roundtrip [DecidableEq ν] (ops : NameOps ν) {n c t : Nat} {X : Arr3 α}
+    (hX : Rect3 n c t X) (hn : 0 < n) (hc : 0 < c) (hd : (defaultNames ops c).Nodup) :
+    (checkX ops (.arr3 X) false 1 1 false true).bind (fun r => match r with
+      | .frame N => checkX ops (.frame N) false 1 1 true false
+      | .arr3 Y => .ok (.arr3 Y)) = .ok (.arr3 X) := by
+  rw [checkX_coerce_pandas ops hX hn hc hd false 1 1 hc (by simp) hn]
+  simp only [Except.bind]
+  have hl : (defaultNames ops c).length = c := by simp [defaultNames]
+  have hisn := isNested_nestedOf hX hn hc (defaultNames ops c) hl false
+  have hcl : (nestedOf (defaultNames ops c) false X).cols.length = c := by
+    have := congrArg List.length (nestedOf_names hX hn (defaultNames ops c) hl false)
+    simpa [Nested.names, hl] using this
+  have hc1 : ¬ c < 1 := by omega
+  have hn1 : ¬ n < 1 := by omega
+  simp [checkX, hcl, nRows_nestedOf hX hn hc (defaultNames ops c) hl false, hisn, hc1, hn1,
+    fromNestedTo3d_ok hX hn hc (defaultNames ops c) hl false, bind, Except.bind, pure, Except.pure]
+
+/-! ### 2-D tables -/
+
+/-- nested → 2-D table: one row per instance, the variables' series laid side by side in column
+order, labelled `name__q` (pandas) or unlabelled (numpy) -/
+theorem nested_to_tab2 (ops : NameOps ν) {n c t : Nat} {k : Bool} {N : Nested ν α}
+    (hN : WFNested n c t k N) (hn : 0 < n) (hc : 0 < c) (rn : Bool) :
+    fromNestedTo2d ops N rn =
+      .ok ⟨if rn then none else some (tab2Labels ops N.names t), tab2Rows (panelOfNested N)⟩ := by
+  obtain ⟨hrect, heq⟩ := wfNested_eq_nestedOf hN hn hc
+  have hl : N.names.length = c := by simp [Nested.names, hN.2.1]
+  conv => lhs; rw [heq]
+  exact fromNestedTo2d_ok ops hrect hn hc N.names hl k rn
+
+/-- path independence towards the 2-D table: 3-D array → nested → 2-D (numpy) equals the direct
+3-D array → 2-D reshape -/
+theorem arr3_nested_tab2_eq_direct [DecidableEq ν] (ops : NameOps ν) {n c t : Nat} {X : Arr3 α}
+    (hX : Rect3 n c t X) (hn : 0 < n) (hc : 0 < c) (names : List ν) (hl : names.length = c)
+    (hnd : names.Nodup) (k : Bool) :
+    (from3dToNested ops X (some names) k).bind (fun N => fromNestedTo2d ops N true)
+      = .ok (from3dTo2d X) := by
+  rw [from3dToNested_ok ops hX hn names hl hnd k]
+  exact fromNestedTo2d_ok ops hX hn hc names hl k true
+
+/-- nested → 3-D array → 2-D equals nested → 2-D (numpy) -/
+theorem nested_arr3_tab2_eq_direct (ops : NameOps ν) {n c t : Nat} {k : Bool} {N : Nested ν α}
+    (hN : WFNested n c t k N) (hn : 0 < n) (hc : 0 < c) :
+    (fromNestedTo3d N).map from3dTo2d = fromNestedTo2d ops N true := by
+  rw [(nested_to_arr3_eq_panel hN hn hc).1, nested_to_tab2 ops hN hn hc true]
+  rfl
+
+/-- 2-D table → nested (Series cells): ONE variable whose series is the whole row (the code has no
+way to know where one variable ends), named `0` or by the name given -/
+theorem tab2_to_nested (ops : NameOps ν) (T : Tab2 α) (hne : T.rows ≠ []) :
+    from2dToNested ops T none false = .ok (nestedOf [ops.zero] false (panelOfRows T.rows)) ∧
+    ∀ name, from2dToNested ops T (some [name]) false =
+      .ok (nestedOf [name] false (panelOfRows T.rows)) :=
+  from2dToNested_ok ops T hne
+
+/-- univariate panels survive the trip through the 2-D table: 3-D array (c = 1) → 2-D → nested →
+3-D array is the identity -/
+theorem arr3_tab2_nested_arr3_univariate (ops : NameOps ν) {n t : Nat} {X : Arr3 α}
+    (hX : Rect3 n 1 t X) (hn : 0 < n) :
+    (from2dToNested ops (from3dTo2d X) none false).bind fromNestedTo3d = .ok X := by
+  have hne : (from3dTo2d X).rows ≠ [] := by
+    intro h
+    have : X.length = 0 := by simpa [from3dTo2d] using congrArg List.length h
+    rw [hX.1] at this; omega
+  rw [(from2dToNested_ok ops (from3dTo2d X) hne).1]
+  have hP : panelOfRows (from3dTo2d X).rows = X := by
+    unfold panelOfRows from3dTo2d
+    simp only [List.map_map]
+    conv => rhs; rw [← List.map_id X]
+    apply List.map_congr_left
+    intro inst hinst
+    have h1 := (hX.2 inst hinst).1
+    match inst, h1 with
+    | [s], _ => simp
+  rw [hP]
+  exact fromNestedTo3d_ok hX hn (by omega) [ops.zero] rfl false
+
+/-- multivariate panels: the trip through the 2-D table returns the column-concatenated panel
+(values and order kept, column boundaries and names lost) -/
+theorem arr3_tab2_nested_concat (ops : NameOps ν) {n c t : Nat} {X : Arr3 α}
+    (hX : Rect3 n c t X) (hn : 0 < n) :
+    from2dToNested ops (from3dTo2d X) none false =
+      .ok (nestedOf [ops.zero] false (X.map (fun inst => [inst.flatten]))) := by
+  have hne : (from3dTo2d X).rows ≠ [] := by
+    intro h
+    have : X.length = 0 := by simpa [from3dTo2d] using congrArg List.length h
+    rw [hX.1] at this; omega
+  rw [(from2dToNested_ok ops (from3dTo2d X) hne).1]
+  simp [panelOfRows, from3dTo2d, List.map_map, Function.comp_def]
+
+/-- FINDING (code as it is): `from_2d_array_to_nested(cells_as_numpy=True)` raises TypeError for
+every non-empty table, so array cells cannot be produced from a 2-D table.  Full-strength clause
+"2-D table → nested with array cells holds the same values" is therefore only provable for
+Series cells (`tab2_to_nested`). -/
+theorem tab2_to_nested_array_cells_rejected (ops : NameOps ν) (T : Tab2 α) (hne : T.rows ≠ [])
+    (cols : Option (List ν)) : from2dToNested ops T cols true = .error .type := by
+  cases h : T.rows with
+  | nil => exact absurd h hne
+  | cons r rs => simp [from2dToNested, h, bind, Except.bind, throw, throwThe, MonadExceptOf.throw]
+
+/-! ### non-vacuity: concrete panels / frames meeting the hypotheses -/
+
+example : Rect3 2 2 3 ([[[1, 2, 3], [4, 5, 6]], [[7, 8, 9], [10, 11, 12]]] : Arr3 Nat) := by
+  simp [Rect3]
+example : WFNested 2 2 2 false (nestedOf ["b", "a"] false ([[[1, 2], [3, 4]], [[5, 6], [7, 8]]] : Arr3 Nat)) := by
+  simp [WFNested, nestedOf, Nested.names, nCols, transposeW, mkCell]
+example : (defaultNames nameOps 12).Nodup := nameOps_defaultNames_nodup 12
+example : pathShape nameOps 2 [Hop.nm none none, Hop.m3 (some "instance") (some "timepoints"),
+    Hop.a3n none true] (Shape.nested [Name.s "b", Name.s "a"] false)
+    = some (Shape.nested (defaultNames nameOps 2) true) := by
+  simp [pathShape, hopShape]
+example : fromNestedTo3d (nestedOf ["b", "a"] true ([[[1, 2], [3, 4]], [[5, 6], [7, 8]]] : Arr3 Nat))
+    = .ok [[[1, 2], [3, 4]], [[5, 6], [7, 8]]] := by rfl
+
 end SkVerif.C15
